@@ -28,7 +28,7 @@ def element_access(n):
 def run(ctx):
     ctx.clause = ("inside the Myers diff implementation every comparison of two sequence elements goes through the "
                   "caller's equality functor; no raw == on elements is reachable from compute_diff")
-    ctx.rules = ["R-EQFUNCTOR"]
+    ctx.rules = ["R-EQFUNCTOR", "R-TRACELCS", "R-WINDOW"]
     P = ctx.program(UNITS)
     roots = [u for u, f in P.funcs.items() if f.q == "abigail::diff_utils::compute_diff" and f.inst]
     ctx.floor("R-EQFUNCTOR", "instantiations of diff_utils::compute_diff", len(roots), 10)
@@ -59,4 +59,130 @@ def run(ctx):
         ctx.ob("R-EQFUNCTOR", "%s is not reachable from compute_diff" % forbidden, forbidden not in names, "",
                "diff_utils functions reachable from compute_diff: %s" % names)
     ctx.floor("R-EQFUNCTOR", "functor calls on sequence elements", n_eq, 4)
+    check_tracelcs(ctx, P, du)
+    nw = check_window(ctx, P, du)
+    ctx.note("R-WINDOW: %d two-ended window(s) in the diff_utils functions reachable from compute_diff (0 is expected "
+             "today; the seeded variant C38-common-head-and-tail-stripped is the positive example of the thorough tier)" % nw)
     ctx.assume("correctness and minimality of the edit script are not decided")
+
+
+def _decl_of(f, n):
+    n = strip_casts(n)
+    return n.get("d") if n is not None and n["k"] == "DeclRefExpr" else None
+
+
+def check_tracelcs(ctx, P, du):
+    """R-TRACELCS: in the core compute_diff (the overload that returns the lcs), a local vector that receives the points of
+    the middle snake (`trace`) is copied into the `lcs` out-parameter on every branch of the dispatch on `d` that fills or
+    uses it; a branch that (re)fills it and leaves without copying computes a dead value - the reported common
+    subsequence misses those points (sibling agreement of the d > 1 / d == 1 / d == 0 branches + dead-store)."""
+    cores = {}
+    for f in du:
+        if f.n != "compute_diff" or f.cfg() is None:
+            continue
+        ps = f.params()
+        if len(ps) == 9 and any("vector<" in (f.unit.type(p["t"]) or {}).get("c", "") and "point" in
+                                (f.unit.type(p["t"]) or {}).get("c", "") for p in ps):
+            cores.setdefault((f.file, f.l0), f)       # one obligation per template definition, not per instantiation
+    ctx.floor("R-TRACELCS", "core compute_diff definitions (lcs + ses + length)", len(cores), 1)
+    for f in cores.values():
+        ctx.analysed(f)
+        lcs_p = next(f.r["params"][i] for i, p in enumerate(f.params())
+                     if "point" in (f.unit.type(p["t"]) or {}).get("c", "") and "vector<" in (f.unit.type(p["t"]) or {}).get("c", ""))
+        # the trace local: a local vector<point> that is push_back'ed
+        traces = set()
+        for n in f.nodes():
+            if n["k"] == "CXXMemberCallExpr" and (f.decl(n) or {}).get("n") == "push_back":
+                from engine.facts import member_call_object
+                d = _decl_of(f, member_call_object(n))
+                if d is not None and d not in f.r["params"] and "point" in (f.unit.type((f.unit.decl(d) or {}).get("t")) or {}).get("c", ""):
+                    traces.add(d)
+        if len(traces) != 1:
+            raise AnalysisBroken("anchor vanished: the `trace` local of compute_diff")
+        tr = next(iter(traces))
+
+        def copies(n):
+            """lcs.insert(.., trace.begin(), trace.end())"""
+            if n["k"] != "CXXMemberCallExpr" or (f.decl(n) or {}).get("n") != "insert":
+                return False
+            from engine.facts import member_call_object
+            return _decl_of(f, member_call_object(n)) == lcs_p and any(
+                x["k"] == "DeclRefExpr" and x.get("d") == tr for a in call_args(n) for x in walk(a))
+        # the branches of the dispatch on d:  if (d > 1) .. else if (d == 1) .. else if (d == 0) ..
+        branches = []
+        for n in f.nodes():
+            if n["k"] != "IfStmt":
+                continue
+            c = strip_casts(n["c"][0])
+            if c is None or c["k"] != "BinaryOperator" or c.get("op") not in ("==", ">", ">=", "<", "<="):
+                continue
+            l, r = strip_casts(c["c"][0]), strip_casts(c["c"][1])
+            if l is None or l["k"] != "DeclRefExpr" or (f.unit.decl(l.get("d")) or {}).get("n") != "d" or \
+                    r is None or r["k"] != "IntegerLiteral":
+                continue
+            branches.append(("d %s %s" % (c["op"], r.get("v")), n["c"][1]))
+        if len(branches) < 3:
+            raise AnalysisBroken("anchor vanished: the dispatch on d in compute_diff")
+        for label, body in branches:
+            has_copy = any(copies(x) for x in walk(body))
+            ctx.ob("R-TRACELCS", "compute_diff: the `%s` branch copies the snake's points into the lcs" % label, has_copy,
+                   f.loc(body),
+                   "lcs.insert(lcs.end(), trace.begin(), trace.end())" if has_copy else
+                   "the branch %s`trace` but never appends it to `lcs`: the points of the middle snake are missing from the "
+                   "reported common subsequence (its siblings copy them)" % (
+                       "re-fills " if any(x["k"] == "CXXMemberCallExpr" and (f.decl(x) or {}).get("n") == "push_back"
+                                         for x in walk(body)) else "leaves "))
+
+
+def check_window(ctx, P, du):
+    """R-WINDOW: when a function narrows an iterator window from both ends by two counters (X_begin += h; X_end -= t),
+    the loop that grows the second counter is bounded in terms of the first (or compares the two cursors): two counters
+    that are each bounded by the same limit can overlap, the window inverts and common elements are matched twice."""
+    n = 0
+    seen_defs = set()
+    for f in du:
+        if f.cfg() is None or (f.file, f.l0) in seen_defs:
+            continue
+        adv, ret = [], []
+        for x in f.nodes():
+            if x["k"] in ("CompoundAssignOperator", "BinaryOperator", "CXXOperatorCallExpr") and x.get("op") in ("+=", "-="):
+                ops = call_args(x) if x["k"] == "CXXOperatorCallExpr" else x["c"]
+                if len(ops) != 2:
+                    continue
+                tgt, amt = _decl_of(f, ops[0]), _decl_of(f, ops[1])
+                if tgt is None or amt is None:
+                    continue
+                t = f.unit.type((f.unit.decl(tgt) or {}).get("t")) or {}
+                if not (t.get("ptr") or "iterator" in t.get("c", "")):
+                    continue
+                (adv if x["op"] == "+=" else ret).append((x, tgt, amt))
+        if not adv or not ret:
+            continue
+        seen_defs.add((f.file, f.l0))
+        for xa, ta, h in adv:
+            for xr, trg, t_ in ret:
+                na, nr = (f.unit.decl(ta) or {}).get("n", ""), (f.unit.decl(trg) or {}).get("n", "")
+                if na.replace("begin", "") != nr.replace("end", ""):
+                    continue          # not the two ends of one window
+                n += 1
+                # loops that increment the second counter
+                related = False
+                for lp in f.nodes():
+                    if lp["k"] not in ("WhileStmt", "ForStmt", "DoStmt"):
+                        continue
+                    body_inc = any(y["k"] == "UnaryOperator" and y.get("op") == "++" and _decl_of(f, y["c"][0]) == t_
+                                   for y in walk(lp))
+                    if not body_inc:
+                        continue
+                    cond = lp["c"][0] if lp["k"] == "WhileStmt" else lp["c"][1]
+                    if cond is not None and any(y["k"] == "DeclRefExpr" and y.get("d") in (h, ta) for y in walk(cond)):
+                        related = True
+                hn, tn = (f.unit.decl(h) or {}).get("n"), (f.unit.decl(t_) or {}).get("n")
+                ctx.analysed(f)
+                ctx.ob("R-WINDOW", "%s: window [%s, %s) narrowed by `%s` and `%s` cannot invert" % (f.n, na, nr, hn, tn),
+                       related, f.loc(xr),
+                       "the loop that grows `%s` is bounded in terms of `%s`" % (tn, hn) if related else
+                       "`%s` and `%s` are grown independently (each against the same limit) and then %s += %s, %s -= %s: "
+                       "when the common prefix and the common suffix overlap in the shorter sequence the window inverts and "
+                       "the edit script comes out too short" % (hn, tn, na, hn, nr, tn))
+    return n
